@@ -11,7 +11,8 @@
    hash functions are arbitrary. *)
 From WK Require Import Base.Base Gen.Consts_C29 Model.ChanAppend Model.ChanAppend_C29
      Proof.ChanAppend_coalesce Proof.ChanAppend_expand Proof.ChanAppend_writer
-     Proof.ChanAppend_run Proof.ChanAppend_pipeline Proof.ChanAppend_store Proof.ChanAppend_monitor.
+     Proof.ChanAppend_run Proof.ChanAppend_pipeline Proof.ChanAppend_store Proof.ChanAppend_monitor
+     Proof.ChanAppend_probe Proof.ChanAppend_monitor_pure.
 From Coq Require Import Sorted Permutation.
 Open Scope N_scope.
 
@@ -34,6 +35,26 @@ Theorem c29_coalesce_sound : forall hashf fp items i j,
   cmdat items i = cmdat items j /\ keyed (cmdat items i) = true /\ keyed (cmdat items j) = true.
 Proof. exact nb_sound. Qed.
 Print Assumptions c29_coalesce_sound.
+
+(* the stack-table pre-check is EXACT for any fingerprint function: within the
+   documented bound it terminates and answers true iff two keyed items of the batch
+   are the same logical send (collisions neither fake nor hide a duplicate) *)
+Theorem c29_precheck_exact : forall (fp : cmd -> N) (items : list psend),
+  N.of_nat (length items) <= c29_stack_item_limit ->
+  exists r, hasCoalescibleIdempotentItems fp items = Some r /\ (r = true <-> coalescible_pair items).
+Proof. exact hasCoalescible_exact. Qed.
+Print Assumptions c29_precheck_exact.
+
+(* completeness: when the payload hash separates the payloads that occur under one
+   key in the batch, equal keyed sends always share one owner (any fingerprint) *)
+Theorem c29_coalesce_complete : forall hashf fp items,
+  hash_separates hashf items ->
+  forall i j, (i < j)%nat -> (j < length items)%nat ->
+  keyed (cmdat items i) = true -> cmdat items i = cmdat items j ->
+  let b := newIdempotentAppendBatch hashf fp items in
+  owner_of b i = owner_of b j.
+Proof. exact nb_complete. Qed.
+Print Assumptions c29_coalesce_complete.
 
 (* expandCompletions: one completion per original item, in its own position,
    carrying its owner's result; only the owner's own position stays committed *)
@@ -229,6 +250,14 @@ Theorem c29_model_satisfies_monitor : forall St do_append do_nlookup fp slog Wf,
   C29_monitor (C29Hist (hi_ordered h) (hi_calls h) (hi_sends h) (hi_logs h)) = 0.
 Proof. exact model_case_monitor. Qed.
 Print Assumptions c29_model_satisfies_monitor.
+
+(* ... and on the coalescer cases it accepts whatever the model computes, for ANY batch
+   whose items are indexed by position (the shape the harness builds) and any scripts *)
+Theorem c29_model_satisfies_monitor_coal : forall items us rs,
+  map ps_index items = ChanAppend_C29.nseq (length items) ->
+  C29_monitor (C29Coalesce items us rs (coal_model items us rs)) = 0.
+Proof. exact model_coal_monitor. Qed.
+Print Assumptions c29_model_satisfies_monitor_coal.
 
 (* non-vacuity: a batch with a coalesced duplicate, a retry of a stored message and a
    key reuse, over the strict store: the duplicate and the retry return the original
